@@ -68,6 +68,7 @@ Inductive label :=
 | LNAck | LNNak                        (* send an ACK / NAK carrying its receive counter *)
 (* the line: head of the NCP -> host queue *)
 | LHDeliver | LHDrop | LHDup | LHCorrupt
+| LHRead (n : nat)                     (* the host gets the first n frames in one read *)
 (* the line: head of the host -> NCP queue *)
 | LNDeliver | LNDrop | LNDup | LNCorrupt.
 
@@ -122,6 +123,9 @@ Definition link_step (K : nat) (s : lstate) (l : label) : lstate :=
       | [] => s
       | f :: q => host_do (set_n2h s q) (Frames [f])
       end
+  | LHRead n =>
+      (* the frames take effect back to back, only then do the suspended coroutines resume *)
+      host_do (set_n2h s (skipn n (n2h s))) (Frames (firstn n (n2h s)))
   | LHDrop => set_n2h s (tl (n2h s))
   | LHDup => set_n2h s (dup_head (n2h s))
   | LHCorrupt =>
